@@ -635,6 +635,14 @@ class Models:
         I.emit(st, fr, {'k': 'discard_err', 'val': I.variant_fields(st, v, 1, 1)[0], 'how': np})
         return self.finish(I, st, fr, t, cont, args[1] if len(args) > 1 else SYM('default', np))
 
+    def m_option_flatten(self, I, st, fr, t, c, np, args, cont):
+        """std::option::Option::flatten"""
+        v = args[0]
+        idx = I.variant_of(st, v, OPT_V, OPTION)
+        if idx == 0:
+            return self.finish(I, st, fr, t, cont, NONE())
+        return self.finish(I, st, fr, t, cont, I.variant_fields(st, v, 1, 1)[0])
+
     def m_option_ok_or(self, I, st, fr, t, c, np, args, cont):
         """std::option::Option::ok_or"""
         v = args[0]
@@ -687,11 +695,24 @@ class Models:
         return self.call_closure(I, st, fr, t, args[1], [I.variant_fields(st, v, 1, 1)[0]], 'id', (cont[1], cont[2]))
 
     def m_bool_then(self, I, st, fr, t, c, np, args, cont):
-        """core::bool::then_some|std::bool::then_some|bool::then_some"""
+        """core::bool::then_some|std::bool::then_some|bool::then_some|core::bool::then|std::bool::then|bool::then"""
         b = I.resolve(st, args[0])
-        if b is not None and VAL[b][0] == 'int':
-            return self.finish(I, st, fr, t, cont, SOME(args[1]) if VAL[b][1] != '0' else NONE())
-        return self.generic(I, st, fr, t, np, args, cont, c)
+        lazy = np.endswith('::then')
+        if b is None:
+            return self.generic(I, st, fr, t, np, args, cont, c)
+        if VAL[b][0] == 'int':
+            truth = VAL[b][1] != '0'
+        else:
+            # `cond.then(|| ..)` is `if cond { Some(..) } else { None }`: a branch on cond, like a switch
+            f = st.facts.get(('sw', b))
+            if f is None:
+                raise NeedFork(('sw', b), [(0, {'k': 'branch', 'val': b, 'eq': 0}), (1, {'k': 'branch', 'val': b, 'eq': 1})])
+            truth = (f == 1)
+        if not truth:
+            return self.finish(I, st, fr, t, cont, NONE())
+        if lazy:
+            return self.call_closure(I, st, fr, t, args[1], [], 'wrap_some', (cont[1], cont[2]))
+        return self.finish(I, st, fr, t, cont, SOME(args[1]))
 
     def m_ord_max(self, I, st, fr, t, c, np, args, cont):
         """std::cmp::Ord::max|std::cmp::Ord::min|std::cmp::max|std::cmp::min"""
@@ -783,11 +804,31 @@ class Models:
         I.store(st, addr, self.path_push(old if old is not None else SYM('undef', 'push'), comp))
         return self.finish(I, st, fr, t, cont, ZST())
 
+    def m_path_join(self, I, st, fr, t, c, np, args, cont):
+        """std::path::Path::join|std::path::PathBuf::join"""
+        _, base = self._pointee(I, st, args[0])
+        base = I.resolve(st, base)
+        comp = I.resolve(st, I.own(st, args[1]))
+        if base is None or comp is None:
+            return self.generic(I, st, fr, t, np, args, cont, c)
+        # `x.join(c)` is `{ let mut p = x.to_path_buf(); p.push(c); p }`: same value as the push idiom
+        I.emit(st, fr, {'k': 'ext', 'path': 'std::path::PathBuf::push', 'args': [base, comp], 'raw_args': list(args), 'gargs': [], 'dest_ty': '()'})
+        return self.finish(I, st, fr, t, cont, self.path_push(base, comp))
+
     @staticmethod
     def path_push(old, comp):
         """push with widening: a chain of more than three pushes (a buffer that grows in a loop because a pop
         is missing) collapses to root + set of components, so loops converge."""
         site0 = SITE('', 0)
+        # `p.parent().unwrap().join(x)` with p = d/y is d/x (the sibling): same value as `pop(); push(x)`
+        to = VAL[old]
+        while to[0] == 'sym' and to[1] == 'ld' and VAL[to[2]][0] == 'sym' and VAL[to[2]][1] == 'app' and VAL[to[2]][2] == 'std::path::Path::parent':
+            old = to[2]             # `&Path` returned by parent(): look through the reference
+            to = VAL[old]
+        if to[0] == 'sym' and to[1] == 'app' and to[2] == 'std::path::Path::parent' and len(to) > 4:
+            inner = VAL[to[4]]
+            if inner[0] == 'sym' and inner[1] == 'app' and inner[2] == 'path.push' and len(inner) > 5:
+                old = inner[4]
         chain = []
         v = old
         while VAL[v][0] == 'sym' and VAL[v][1] == 'app' and VAL[v][2] == 'path.push' and len(VAL[v]) > 5:
@@ -883,7 +924,7 @@ class Models:
         return self.finish(I, st, fr, t, cont, SYM('cmp', 'Eq', a if a is not None else ZST(), b if b is not None else ZST()))
 
     def m_cmp(self, I, st, fr, t, c, np, args, cont):
-        """std::cmp::PartialOrd::lt|std::cmp::PartialOrd::le|std::cmp::PartialOrd::gt|std::cmp::PartialOrd::ge|std::cmp::PartialEq::eq|std::cmp::PartialEq::ne"""
+        """std::cmp::PartialOrd::lt|std::cmp::PartialOrd::le|std::cmp::PartialOrd::gt|std::cmp::PartialOrd::ge|std::cmp::PartialEq::eq|std::cmp::PartialEq::ne|<std::option::Option as std::cmp::PartialEq>::eq|<std::option::Option as std::cmp::PartialEq>::ne|<std::option::Option as std::cmp::PartialOrd>::lt|<std::option::Option as std::cmp::PartialOrd>::le|<std::option::Option as std::cmp::PartialOrd>::gt|<std::option::Option as std::cmp::PartialOrd>::ge"""
         op = {'lt': 'Lt', 'le': 'Le', 'gt': 'Gt', 'ge': 'Ge', 'eq': 'Eq', 'ne': 'Ne'}[np.rsplit('::', 1)[1]]
         a = I.resolve(st, args[0])
         b = I.resolve(st, args[1])
